@@ -171,8 +171,11 @@ def build_group(root, group):
     return binp
 
 
+ULIMIT_KB = [int(os.environ.get("VERIF_ULIMIT_KB", "8000000"))]
+
+
 def ulimit_wrap(cmd):
-    return ["bash", "-c", "ulimit -v %d; exec \"$@\"" % (int(os.environ.get("VERIF_ULIMIT_KB", "8000000"))), "w"] + cmd
+    return ["bash", "-c", "ulimit -v %d; exec \"$@\"" % ULIMIT_KB[0], "w"] + cmd
 
 
 def spawn_workers(binp, harness, seed, total_runs, deadline_s, outdir, extra_env=None, nworkers=None, progress=False):
@@ -327,6 +330,7 @@ def check(pid, tier, seed, replay=None):
         od = os.path.join(outroot, hname.replace("/", "_"))
         t0 = time.time()
         nw = sub.get("workers")
+        ULIMIT_KB[0] = int(sub.get("ulimit_kb", os.environ.get("VERIF_ULIMIT_KB", "8000000")))
         results, deaths = run_pool(binp, sub, hname, seed, runs, deadline, od, nw or NWORKERS)
         sub_wall = time.time() - t0
         sr = dict(harness=hname, runs=0, evals=0, wall_s=round(sub_wall, 1), worker_deaths=len(deaths))
